@@ -32,8 +32,8 @@ FILES = {
     "src/builder/sdd/compression.rs": ["C04", "C03", "C16"],
     "src/builder/sdd/semantic.rs": ["C11"],
     "src/repr/sdd.rs": ["C07", "C10", "C03"],
-    "src/repr/sdd/sdd_or.rs": ["C11", "C10"],
-    "src/repr/sdd/binary_sdd.rs": ["C11", "C10"],
+    "src/repr/sdd/sdd_or.rs": ["C11", "C10", "C04"],
+    "src/repr/sdd/binary_sdd.rs": ["C11", "C10", "C04"],
     "src/repr/vtree.rs": ["C14", "C03"],
     "src/util/btree.rs": ["C14", "C03"],
     "src/builder/decision_nnf/builder.rs": ["C06", "C10"],
@@ -49,8 +49,8 @@ FILES = {
     "src/util/semirings/polynomial_semiring_implementation.rs": ["C13", "C07"],
     "src/repr/cnf.rs": ["C15", "C14", "C17"],
     "src/repr/dtree.rs": ["C14", "C05"],
-    "src/repr/model.rs": ["C15"],
-    "src/repr/var_label.rs": ["C15"],
+    "src/repr/model.rs": ["C15", "C09", "C05"],
+    "src/repr/var_label.rs": ["C15", "C09", "C05"],
     "src/repr/logical_expr.rs": ["C17"],
     "src/serialize/ser_bdd.rs": ["C17", "C19"],
     "src/serialize/ser_sdd.rs": ["C17"],
@@ -90,6 +90,10 @@ OPS = [
     ("prime_to_sub", r"\.prime\(\)", ".sub()"),
     ("polarity_flip", r"\.polarity\(\)", ".polarity() == false"),
     ("ptrtrue_to_ptrfalse", r"\bPtrTrue\b", "PtrFalse"),
+    # a whole call statement removed (a forgotten clear, insert, push, set ...)
+    ("drop_call_stmt", r"(?m)^[ \t]+(?!let |return |if |for |while |match |loop |else |break|continue|//|#|pub |fn |use |impl |\}|\{)[A-Za-z_][^\n=]*\([^\n]*\);[ \t]*$", ""),
+    # swap the two branches of an if/else expression on one line
+    ("swap_then_else", r"\{ ([a-z_\.\(\)]+) \} else \{ ([a-z_\.\(\)]+) \}", r"{ \2 } else { \1 }"),
 ]
 
 
